@@ -68,6 +68,10 @@ pub mod timers;
 pub(crate) mod utils;
 pub use crate::utils::infbounds::*;
 
+// verification-only hooks (see /verif); compiled only under the guard cfg
+#[cfg(oxfordcontrol_clarabel_rs_verif)]
+pub mod verif_hooks;
+
 #[cfg(feature = "python")]
 pub mod python;
 
